@@ -107,7 +107,9 @@ def nondividing_scenarios(prefix, extra_cfg):
     for i, rates in enumerate(fam):
         for level in ("http", "set"):
             b = min(r[2] for r in rates)
-            steps = [{"op": "req", "src": "s1", "n": b}, {"op": "idlex", "src": "s1"},
+            # drained, then the whole burst asked again: the advertised wait spans more than one period (burst > average)
+            steps = [{"op": "req", "src": "s1", "n": b}, {"op": "req", "src": "s1", "n": b}, {"op": "retry", "src": "s1"},
+                     {"op": "idlex", "src": "s1"},
                      {"op": "req", "src": "s1", "n": 1}, {"op": "retry", "src": "s1"}, {"op": "idlex", "src": "s1"},
                      {"op": "req", "src": "s1", "n": b}, {"op": "retry", "src": "s1"}, {"op": "idlex", "src": "s1"}]
             cfg = {"tick_ms": 100, "rates": [{"p": p, "a": a, "b": bb} for p, a, bb in rates], "cap": 65536, "level": level,
